@@ -127,7 +127,7 @@ PROPS = {
             "gossip / periodic announce / broadcast targets are active listed members, hence not the own address": "theorem (full given the invariant): chosen_targets_are_active_members, chosen_targets_not_own_address",
             "invariant: no active record bears the own address": "theorem (full, every reachable state under documented change_identity use): C19H.chosen_targets_never_own_address_always discharges the hypothesis of chosen_targets_not_own_address in every such state; per update: own_inactive_preserved, own_address_updates_become_down",
             "probes": "theorem (full, every reachable state, every reshuffle): C19H.probe_target_never_own_address_always, C19H.probed_member_never_own_address_always",
-            "replies": "theorem for the rejection (C19H.no_reply_to_own_address: data from the own address is refused before anything happens); partial for the rest: that each reply goes to the checked sender is read off the reply table (reactToMessage) and checked by search and correspondence, there is no effect-level whole-history theorem",
+            "replies": "theorem per call: replies_go_to_the_sender (the reaction to any message sends at most one datagram, back to the sender or, for the two relay legs, to the target the peer named), C19H.no_reply_to_own_address (data from the own address is refused before anything happens), C09.dead_sender_payload_is_discarded / inactiveSender (TurnUndead back to the sender); there is no single effect-level whole-history statement tying them together",
         },
         RULE_HIST + "search: destination of every send compared with the instance's address on histories that teach it older/newer identities of its own address, all periodic tasks enabled.",
         ["relays towards a target named by a peer (IndirectPing, ForwardedAck) and explicit announce(dst) are outside the guarantee",
